@@ -243,15 +243,44 @@ def pairing_random(ctx, obs, q, rule='PAIR'):
 
 
 # ----------------------------------------------------------------------------------------------------------
+def _result_names(ctx, q):
+    """names of the locals handed to Result(...) as evaluations / noise_ceiling (None if not plain names)"""
+    prog = ctx.prog
+    r = ctx.dep.result(q)
+    cs = calls_to(r, 'inference.result.Result.__init__')
+    if not cs:
+        raise AnalysisError(f'{q}: no Result(...) construction')
+    b = bound_args(prog, 'inference.result.Result.__init__', cs[-1])
+    ev = b.get('evaluations', (None,))[0]
+    nc = b.get('noise_ceiling', (None,))[0]
+    return (ev.id if isinstance(ev, ast.Name) else None), (nc.id if isinstance(nc, ast.Name) else None)
+
+
+def _mask_names(f, ev):
+    """locals defined as isfinite / ~isnan of (a slice of) the evaluations array"""
+    out = set()
+    for s in ast.walk(f.node):
+        if isinstance(s, ast.Assign) and isinstance(s.targets[0], ast.Name):
+            if any(isinstance(c, ast.Call) and isinstance(c.func, ast.Attribute) and c.func.attr in ('isfinite', 'isnan')
+                   and any(isinstance(n, ast.Name) and n.id == ev for n in ast.walk(c)) for c in ast.walk(s.value)):
+                out.add(s.targets[0].id)
+    return out
+
+
 def nan_discipline(ctx, obs, q, rule='NAN'):
     prog = ctx.prog
     f = prog.func(q)
     r = ctx.dep.result(q)
+    ev, nc = _result_names(ctx, q)
+    if ev is None:
+        obs.unk(rule, q, 'evaluations array', 'Result(...) is not given a plain local as evaluations')
+        return
     nan_stores = [s for s in ast.walk(f.node) if isinstance(s, ast.Assign) and isinstance(s.targets[0], ast.Subscript)
-                  and isinstance(s.targets[0].value, ast.Name) and s.targets[0].value.id == 'evaluations'
+                  and isinstance(s.targets[0].value, ast.Name) and s.targets[0].value.id == ev
                   and _is_nan(s.value)]
     if not nan_stores:
         return
+    masks = _mask_names(f, ev)
     # the arm that marks evaluations NaN also marks the noise ceilings
     for s in nan_stores:
         arm = _enclosing_arm(f.node, s)
@@ -260,18 +289,18 @@ def nan_discipline(ctx, obs, q, rule='NAN'):
             for t in arm:
                 for n in ast.walk(t):
                     if isinstance(n, ast.Assign) and isinstance(n.targets[0], ast.Subscript) \
-                            and isinstance(n.targets[0].value, ast.Name) and 'noise' in n.targets[0].value.id \
+                            and isinstance(n.targets[0].value, ast.Name) and n.targets[0].value.id != ev \
                             and _is_nan(n.value):
                         ok = True
                     if isinstance(n, ast.Call) and isinstance(n.func, ast.Attribute) and n.func.attr == 'append' \
-                            and isinstance(n.func.value, ast.Name) and 'noise' in n.func.value.id and n.args \
-                            and _is_nan(n.args[0]):
+                            and isinstance(n.func.value, ast.Name) and n.args and _is_nan(n.args[0]):
                         ok = True
         obs.check(ok, rule, q, 'a resample marked NaN also marks its noise ceilings NaN',
                   'the arm that sets evaluations to NaN does not set the noise-ceiling entries of the resample to NaN',
                   '', where(prog, f, s))
-    # every covariance is computed from eval_ok-masked arrays
-    inl = Inliner(r, None, (), stop=('evaluations', 'noise_ceil', 'eval_ok', 'noise_min', 'noise_max'))
+    # every covariance is computed from mask-selected arrays
+    stop = tuple({ev} | ({nc} if nc else set()) | masks)
+    inl = Inliner(r, None, (), stop=stop)
     n_cov = 0
     for c in r.calls:
         leaf = c.ext.split('.')[-1] if c.ext else ''
@@ -282,10 +311,10 @@ def nan_discipline(ctx, obs, q, rule='NAN'):
             continue
         n_cov += 1
         e = inl.inline(c.node.args[1] if is_second_moment else c.node.args[0])
-        bad = _unmasked_uses(e)
-        obs.check(not bad, rule, q, f'covariance #{c.ordinal} ({leaf}) uses only eval_ok-masked resamples',
-                  f'`{norm(c.node)[:90]}` reads `{bad[0] if bad else ""}` without the eval_ok mask: NaN-marked resamples enter '
-                  f'the covariance', '', where(prog, f, c.node))
+        bad = _unmasked_uses(e, {ev} | ({nc} if nc else set()), masks)
+        obs.check(not bad, rule, q, f'covariance #{c.ordinal} ({leaf}) uses only mask-selected (non-NaN) resamples',
+                  f'`{norm(c.node)[:90]}` reads the {"evaluations" if bad and bad[0] == ev else "noise ceilings"} without the '
+                  f'finite-sample mask: NaN-marked resamples enter the covariance', '', where(prog, f, c.node))
     if n_cov == 0:
         obs.unk(rule, q, 'covariance calls', 'no np.cov / einsum second moment found')
 
@@ -306,16 +335,16 @@ def _enclosing_arm(root, target):
     return best
 
 
-def _unmasked_uses(e):
-    """names `evaluations` / `noise_ceil` used other than as X[... eval_ok ...]"""
+def _unmasked_uses(e, arrays, masks):
+    """names of the arrays used other than as X[... mask ...]"""
     masked = set()
     for n in ast.walk(e):
-        if isinstance(n, ast.Subscript) and isinstance(n.value, ast.Name) and n.value.id in ('evaluations', 'noise_ceil'):
-            if any(isinstance(x, ast.Name) and x.id == 'eval_ok' for x in ast.walk(n.slice)):
+        if isinstance(n, ast.Subscript) and isinstance(n.value, ast.Name) and n.value.id in arrays:
+            if any(isinstance(x, ast.Name) and x.id in masks for x in ast.walk(n.slice)):
                 masked.add(id(n.value))
     out = []
     for n in ast.walk(e):
-        if isinstance(n, ast.Name) and n.id in ('evaluations', 'noise_ceil') and id(n) not in masked:
+        if isinstance(n, ast.Name) and n.id in arrays and id(n) not in masked:
             out.append(n.id)
     return out
 
@@ -390,12 +419,12 @@ def sib_covariance(ctx, obs, rule='SIB'):
         q = EV + fn
         f = prog.func(q)
         r = ctx.dep.result(q)
-        inl = Inliner(r, None, (), stop=('evaluations', 'noise_ceil', 'eval_ok', 'noise_min', 'noise_max', 'data'))
+        inl = Inliner(r, None, (), stop=('data',))
         cs = calls_to(r, 'inference.result.Result.__init__')
         for c in cs:
             b = bound_args(prog, 'inference.result.Result.__init__', c)
             if 'variances' in b:
-                alts = sorted(ast.dump(a) for a in _alts(inl.inline(b['variances'][0])))
+                alts = sorted(_canon(a) for a in _alts(inl.inline(b['variances'][0])))
                 forms[fn] = (alts, c, f)
     if len(forms) < 3:
         obs.unk(rule, EV + 'eval_bootstrap*', 'variances argument of Result', 'not found in all three routines')
@@ -406,6 +435,16 @@ def sib_covariance(ctx, obs, rule='SIB'):
                   f'the `variances` handed to Result in {fn} is not the expression used by its siblings '
                   f'(evaluations and both noise ceilings, masked by eval_ok): {len(alts)} alternative(s) vs {len(ref)}',
                   '', where(prog, f, c.node))
+
+
+def _canon(e):
+    """dump with opaque leftover local names (accumulator lists, loop-carried arrays) replaced by their role-free marker"""
+    import copy
+    e = copy.deepcopy(e)
+    for n in ast.walk(e):
+        if isinstance(n, ast.Name) and not n.id.startswith(('PARAM_', 'SRC', 'PHI', 'ELEM', 'OPAQUE', 'CYCLE')) and n.id not in ('np', 'data'):
+            n.id = 'LOCAL'
+    return ast.dump(e)
 
 
 def ceilings_same_sample(ctx, obs, rule='PAIR'):
